@@ -214,6 +214,24 @@ def _worker(chunk):
     return out
 
 
+def pool_map(fn, chunks, procs=16, timeout=3000, maxtasks=40):
+    """map over worker processes with an overall watchdog: a hang in the code under test that
+    escapes the call budget becomes a machinery error (exit 2), never an endless check"""
+    ctx = multiprocessing.get_context("fork")
+    p = ctx.Pool(min(procs, max(1, len(chunks))), maxtasksperchild=maxtasks)
+    try:
+        res = p.map_async(fn, chunks).get(timeout=timeout)
+        p.close()
+        p.join()
+        return res
+    except multiprocessing.TimeoutError:
+        p.terminate()
+        raise RuntimeError("worker pool watchdog: no result within %ds" % timeout)
+    except BaseException:
+        p.terminate()
+        raise
+
+
 def replay_all(items, procs=16, chunk=50):
     """items: list of (scn, rec, opts).  returns list of results (same order)."""
     if not items:
@@ -222,7 +240,5 @@ def replay_all(items, procs=16, chunk=50):
     if procs <= 1 or len(items) < 8:
         outs = [_worker(c) for c in chunks]
     else:
-        ctx = multiprocessing.get_context("fork")
-        with ctx.Pool(min(procs, len(chunks)), maxtasksperchild=40) as p:
-            outs = p.map(_worker, chunks)
+        outs = pool_map(_worker, chunks, procs)
     return [r for o in outs for r in o]
